@@ -2,9 +2,9 @@ package coroutines
 
 import (
 	"fmt"
-	"text/template"
 	"log/slog"
 	"strings"
+	"text/template"
 
 	"github.com/resonatehq/gocoro"
 	gocoroPromise "github.com/resonatehq/gocoro/pkg/promise"
